@@ -9,7 +9,7 @@ def gen_consts(v):
     return v.gen_consts_cpp(ID, ['ola/web/JsonLexer.h'], [('MAX_DEPTH', 'ola::web::JsonLexer::MAX_DEPTH')],
                             os.path.join(v.VERIF, 'props', ID, 'coq', 'Gen.v'))
 
-SPEC_KEYS = (['valid', 'toks', 'str', 'rt', 'back', 'pre', 'eq', 'ok', 'tree', 'w', 'same', 'all', 'dall', 'chk', 'fresh']
+SPEC_KEYS = (['valid', 'toks', 'str', 'rt', 'back', 'pre', 'eq', 'ok', 'tree', 'w', 'same', 'all', 'dall', 'chk', 'fresh', 'qe', 'ne', 'lt', 'le', 'gt', 'ge']
              + ['p%d' % i for i in range(16)]
              + ['r%d' % i for i in range(16)] + ['d%d' % i for i in range(16)])
 INTERNAL_KEYS = []          # 'err' (message text) and 'wl' are compared but are not property-determined
@@ -19,6 +19,8 @@ RULE = ('pointer token lists over {~ / 0 1 a "" ~0 ~1 ~01 ...} (all lists up to 
         'texts (2^31, 2^32, 2^63, 2^64 +-1, leading zeros, lone signs, every escape), doubles with 1-20 digit exponents of '
         'both signs / int32- and uint64-wrap exponents / long digit strings / leading fractional zeros under a 4 s '
         'per-case watchdog, an exact-length sweep (every document size 1..4200 and 2^k-1..2^k+1 up to 65537), sequences of '
+        'operator==/!=/</<=/>/>= on every pair of integer node kinds at 0, +-1, 2^31, 2^32, 2^63, 2^64 boundaries and their '
+        '2^32/2^63/2^64 aliases in both orders (bare, inside containers, in patch test ops), sequences of '
         'texts through ONE long-lived JsonParser (failing inside open containers at every depth, then valid), mutated documents, random '
         'bytes, NUL, nesting ladders around MAX_DEPTH and up to 64 KiB; API-built trees to depth 8; patch programs '
         'of 1-8 ops on generated documents with paths aimed at existing members, indices len-1/len/len+1, "-", '
@@ -82,7 +84,9 @@ def rand_tree(rng, depth, keys=None, printable=True, small=False):
     if depth <= 0 or r < 0.45:
         k = rng.choice(['s', 'int', 'int', 't', 'f', 'n'])
         if k == 's': return ['s' + hx(rand_str(rng, printable))]
-        if k == 'int': return [int_leaf(rng, rng.randrange(0, 5) if small else None)]
+        if k == 'int':
+            if small and rng.random() < 0.75: return [int_leaf(rng, rng.randrange(0, 5))]
+            return [int_leaf(rng, rng.choice(CMP_VALUES) if small else None)]
         return [k]
     if r < 0.72:
         n = rng.choice([0, 1, 2, 3, 4] if not small else [0, 1, 2, 3])
@@ -200,6 +204,59 @@ def mutate(rng, s):
         else: b[i] = rng.randrange(256)
     return bytes(b)
 
+# ---------------------------------------------------------------- numeric comparison
+CMP_VALUES = sorted(set([0, 1, -1, 2, -2, 2**31 - 1, 2**31, 2**31 + 1, -2**31, -2**31 + 1, -2**31 - 1, 2**32 - 1, 2**32,
+                         2**32 + 1, -2**32, -2**32 + 1, 2**63 - 1, 2**63, 2**63 + 1, -2**63, -2**63 + 1, 2**64 - 1, 2**64 - 2,
+                         2**64 - 2**31, 2**64 - 2**32, 2**64 - 2**63 + 1, 123456789, -123456789]))
+CLASSES = [('u', 0, 2**32), ('i', -2**31, 2**31), ('U', 0, 2**64), ('I', -2**63, 2**63)]
+
+def int_leaves(v):
+    return ['%s%d' % (c, v) for c, lo, hi in CLASSES if lo <= v < hi]
+
+def aliases(v):
+    """values that a wrong cast would confuse with v"""
+    return [w for w in (v + 2**64, v - 2**64, v + 2**32, v - 2**32, v + 2**63, v - 2**63, -v, v + 1, v - 1)
+            if -2**63 <= w < 2**64]
+
+DBL_CMP = ['1.5', '2.5', '-1.5', '1e3', '5.0', '0.5', '18446744073709551615.0', '-1.0', '1e400']
+
+def gen_cmp(rng, quick):
+    pairs = []
+    for v in CMP_VALUES:
+        for w in [v] + aliases(v):
+            pairs.append((v, w))
+    for v, w in pairs:
+        for x in int_leaves(v):
+            for y in int_leaves(w):
+                if quick and v != w and rng.random() < 0.5: continue
+                yield x, y
+    for _ in range(300 if quick else 20000):
+        v = rng.choice(CMP_VALUES + [rng.randrange(-2**63, 2**64)])
+        w = rng.choice([v] + aliases(v) + [rng.choice(CMP_VALUES)])
+        xs, ys = int_leaves(v), int_leaves(w)
+        if xs and ys: yield rng.choice(xs), rng.choice(ys)
+    # inside containers (tree equality), other kinds, doubles (same text or clearly different values)
+    for _ in range(150 if quick else 5000):
+        v = rng.choice(CMP_VALUES); w = rng.choice([v] + aliases(v))
+        xs, ys = int_leaves(v), int_leaves(w)
+        if not xs or not ys: continue
+        x, y = rng.choice(xs), rng.choice(ys)
+        k = rng.randrange(4)
+        if k == 0: yield 'a2,u1,' + x, 'a2,i1,' + y
+        elif k == 1: yield 'o1,6b,' + x, 'o1,6b,' + y
+        elif k == 2: yield 'a1,o1,6b,a1,' + x, 'a1,o1,6b,a1,' + y
+        else: yield 'a2,%s,%s' % (x, y), 'a2,%s,%s' % (y, x)
+    others = ['s31', 's-', 't', 'f', 'n', 'a0', 'o0', 'u1', 'i0', 'a1,u1', 'o1,61,u1']
+    for x in others:
+        for y in others: yield x, y
+    for t in DBL_CMP:
+        yield 'D' + hx(t), 'D' + hx(t)
+        for u in DBL_CMP:
+            if u != t: yield 'D' + hx(t), 'D' + hx(u)
+        for y in ['u1', 'i-1', 'U18446744073709551615', 'u5', 'I5', 's31', 'n']:
+            yield 'D' + hx(t), y
+            yield y, 'D' + hx(t)
+
 # ---------------------------------------------------------------- patches
 PKEYS = ['a', 'b', 'c', 'a/b', 'm~n', '', '-', '0', '1', '01']
 
@@ -264,6 +321,8 @@ def gen_patch(rng, nops=None):
                 p = rng.choice(paths_of(doc)); v = None
                 try:
                     node = node_at(doc, p)
+                    if node[0] == 'i' and rng.random() < 0.5:      # a value a wrong cast would confuse with it
+                        node = ('i', rng.choice(aliases(node[1]) or [node[1]]))
                     v = enc_py(rng, node)
                 except Exception:
                     v = None
@@ -380,6 +439,9 @@ def gen_cases(rng, tier):
     for a in OPEN_FAIL:
         for b in VALID[:4]:
             yield 'seq %s,%s,%s' % (hx(a), hx(b), hx(a))
+    # equality / ordering of numeric nodes at the 32/64-bit boundaries, every pair of kinds, both orders
+    for x, y in gen_cmp(rng, quick):
+        yield 'cmp %s %s' % (x, y)
     # API-built trees
     for _ in range(500 if quick else 30000):
         pr = rng.random() < 0.9
@@ -395,6 +457,7 @@ def nontrivial(payload, md):
     op = payload.split(' ', 1)[0]
     if op in ('ptr', 'ptrt'): return md.get('valid') == '1' and md.get('rt') == '1'
     if op == 'pre': return md.get('pre') == '1'
+    if op == 'cmp': return md.get('eq') == '1' or md.get('lt') == '1'
     if op in ('parse', 'deep', 'len'): return md.get('ok') == '1'
     if op == 'seq': return any(v.startswith('ok:') for k, v in md.items() if k[0] == 'p') and any(v.startswith('err:') for k, v in md.items() if k[0] == 'p')
     if op == 'tree': return md.get('ok') == '1' and md.get('eq') == '1'
